@@ -88,6 +88,47 @@ def oracle_composition(R, tier, seed):
         R.mark("c19", it)
 
 
+def oracle_mixed_handedness(R, tier, seed):
+    """symmetric surfaces described by different halves in ONE model (a wing by its left half, a tail by its right half):
+    the result does not depend on the order of the list and equals that of the all-left description of the same aircraft"""
+    from .c07 import mirror_mesh
+    O = R.oracle("AeroPoint.mixed-left-right-halves")
+    rng = gen.stable_rng(seed, "c19mixed")
+    for it in range(2 if tier == "quick" else 6):
+        ns = 2 + it % 2
+        lefts = []
+        for si in range(ns):
+            nx, ny = [(2, 3), (3, 4), (2, 4)][int(rng.integers(0, 3))]
+            lefts.append(gen.rand_mesh(rng, nx, ny, "left", offset=False) + np.array([4.5 * si, 0.0, 0.7 * si]))
+        hand = [("L", "R", "L")[(si + it) % 3] for si in range(ns)]
+        if "R" not in hand: hand[-1] = "R"
+        if "L" not in hand: hand[0] = "L"
+        meshes = [m if h == "L" else mirror_mesh(m) for m, h in zip(lefts, hand)]
+        names = ["s%d" % i for i in range(ns)]; syms = [True] * ns
+        comp = bool(it % 2)
+        flow = dict(alpha=float(rng.uniform(-3, 9)), beta=0.0, v=float(rng.uniform(50, 250)), rho=float(rng.uniform(0.3, 1.2)), Mach=float(rng.uniform(0.2, 0.8)), cg=np.array([rng.normal(), 0.0, rng.normal()]))
+        base = _run(meshes, names, syms, comp, **flow)
+        perm = list(range(ns))[::-1]
+        pm = _run([meshes[i] for i in perm], [names[i] for i in perm], syms, comp, **flow)
+        allleft = _run(lefts, names, syms, comp, **flow)
+        bad = {}
+        for n, h in zip(names, hand):
+            for k in ("_CL", "_CDi", "_CDv", "_S"):
+                if _rel(pm[n + k], base[n + k]) > 1e-8: bad["order:" + n + k] = _rel(pm[n + k], base[n + k])
+                if _rel(allleft[n + k], base[n + k]) > 1e-8: bad["all-left:" + n + k] = _rel(allleft[n + k], base[n + k])
+            if _rel(pm[n + "_F"], base[n + "_F"]) > 1e-8: bad["order:" + n + "_F"] = _rel(pm[n + "_F"], base[n + "_F"])
+            Fl = allleft[n + "_F"]; Fb = base[n + "_F"] if h == "L" else base[n + "_F"][:, ::-1] * np.array([1.0, -1.0, 1.0])
+            if _rel(Fl, Fb) > 1e-8: bad["all-left:" + n + "_F"] = _rel(Fl, Fb)
+        for k in ("CL", "CD"):
+            if _rel(pm[k], base[k]) > 1e-8: bad["order:" + k] = _rel(pm[k], base[k])
+            if _rel(allleft[k], base[k]) > 1e-8: bad["all-left:" + k] = _rel(allleft[k], base[k])
+        O["cases"] += 1
+        desc = {"nsurf": ns, "halves": hand, "compressible": comp, "seed": seed, "it": it, **{k: (v.tolist() if hasattr(v, "tolist") else v) for k, v in flow.items()}}
+        if bad: _fail(O, "C19:AeroPoint:mixed-left-and-right-halves-%s" % ("depend-on-surface-order" if any(k.startswith("order") for k in bad) else "differ-from-all-left-description"), desc, errors=bad, meshes=[m.tolist() for m in meshes])
+        else: O["ok"] += 1
+        R.mark("c19mixed", it)
+
+
 def oracle_mphys(R, tier, seed):
     """MPhys wrapper groups vs the native AeroPoint; mux/demux exactness and adjoint consistency."""
     from mphys.core import MPhysVariables as MV
